@@ -603,6 +603,35 @@ def stream_f0(run: Run, c: Ctx, batch: Batch, extra):
         if (row is None) != (err is not None):
             run.violation("f0: coefficients %s but the call %s" % ("exist" if row else "do not exist", "raised" if err else "returned"),
                           dict(atom=[z, a, q], symbol=key), clause="f0-lookup")
+        if err is None and len(qs) >= 4:
+            # the same Q values as a transposed (non-contiguous) 2-D array: entry by entry the same numbers
+            k2 = (len(qs) // 2) * 2
+            q2 = np.array(qs[:k2]).reshape(2, -1).T
+            try:
+                v2 = np.asarray(atom.xray.f0(q2), dtype=float)
+                ref2 = np.array([float(vec[j]) for j in range(k2)]).reshape(2, -1).T
+                same = v2.shape == q2.shape and all(
+                    (v2[i, j] != v2[i, j] and ref2[i, j] != ref2[i, j]) or xd.close_scaled(v2[i, j], ref2[i, j])
+                    for i in range(q2.shape[0]) for j in range(q2.shape[1]))
+            except Exception as e2:  # noqa
+                same = False
+            if not same:
+                run.violation("f0 of a transposed 2-D array of Q values differs entry by entry from the 1-D call",
+                              dict(atom=[z, a, q], Q=qs[:k2]), clause="scalar-vector")
+        if q and a == 0:
+            # the charge as a float / numpy integer names the same ion
+            from periodictable import cromermann
+            for qq in (float(q), np.int64(q)):
+                try:
+                    alt = float(cromermann.fxrayatq(c.sym[z], qs[1], charge=qq))
+                    ok = err is None and xd.close_scaled(alt, float(vec[1]))
+                except KeyError:
+                    ok = err is not None
+                except Exception:  # noqa
+                    ok = False
+                if not ok:
+                    run.violation("fxrayatq(%r, Q, charge=%r) differs from the ion's f0" % (c.sym[z], qq),
+                                  dict(atom=[z, a, q], Q=qs[1]), clause="f0-lookup")
         for j, Q in enumerate(qs):
             inp = dict(atom=[z, a, q], Q=Q)
             run.count(key=("f0", z, a, q, Q), nontrivial=row is not None, tag="f0:" + ("ion" if q else "atom"))
@@ -701,11 +730,50 @@ def guarded(run, what, fn, *args):
                       clause="raises")
 
 
+def first_touch_probe(run: Run):
+    """what an ion / isotope reports must not depend on being the first x-ray access of the process, nor on
+    the type of the charge key it was first reached with: each probe is the first touch of a fresh interpreter"""
+    import json as _json
+    import os
+    import subprocess
+    import sys
+    from ..common import REPO
+    pt = import_repo()
+    code = ("import sys, json; sys.path.insert(0, %r); import periodictable as pt, numpy as np\n"
+            "z, a, q, how = int(sys.argv[1]), int(sys.argv[2]), int(sys.argv[3]), sys.argv[4]\n"
+            "x = pt.elements[z]\n"
+            "x = x[a] if a else x\n"
+            "x = x.ion[np.int64(q) if how == 'np' else q] if q else x\n"
+            "first = [float(x.xray.f0(0.0)), float(x.xray.f0(2.5))]\n"
+            "y = pt.elements[z]; y = y[a] if a else y; y = y.ion[q] if q else y\n"
+            "again = [float(y.xray.f0(0.0)), float(y.xray.f0(2.5))]\n"
+            "sf = [float(v) for v in y.xray.scattering_factors(energy=8.0)]\n"
+            "print(json.dumps([first, again, sf]))\n" % str(REPO))
+    for (z, a, q, how) in [(26, 0, 3, "int"), (26, 0, 2, "np"), (11, 0, 1, "int"), (17, 0, -1, "np"), (26, 56, 3, "int"),
+                           (8, 0, -2, "int"), (28, 0, 2, "np")]:
+        x = pt.elements[z]
+        x = x[a] if a else x
+        x = x.ion[q]
+        want = [[float(x.xray.f0(0.0)), float(x.xray.f0(2.5))]] * 2 + [[float(v) for v in x.xray.scattering_factors(energy=8.0)]]
+        p = subprocess.run([sys.executable, "-c", code, str(z), str(a), str(q), how], capture_output=True, text=True,
+                           timeout=300, env=dict(os.environ, PYTHONDONTWRITEBYTECODE="1"))
+        run.count(key=("first-touch", z, a, q, how), nontrivial=True, tag="first-touch")
+        inp = dict(atom=[z, a, q], charge_key=how)
+        if p.returncode != 0:
+            run.violation("first x-ray access through %r raises: %s" % ((z, a, q), p.stderr.strip()[-200:]), inp, clause="raises")
+            continue
+        got = _json.loads(p.stdout.strip().splitlines()[-1])
+        if not all(xd.close_scaled(g, w) for gs, ws_ in zip(got, want) for g, w in zip(gs, ws_)):
+            run.violation("the first x-ray access of a process, made through %r (charge key: %s), reports %r; the loaded table "
+                          "reports %r" % ((z, a, q), how, got, want), inp, clause="f0-limit")
+
+
 def run(run: Run) -> int:
     run.prove(generated=["Constants", "ElementBase", "F0Table"])
     batch = Batch()
     c = setup(run, batch)
     quick = run.tier == "quick"
+    guarded(run, "first touch", first_touch_probe, run)
     guarded(run, "node sweep", stream_sweep, run, c, batch)
     guarded(run, "atom kinds", stream_atom_kinds, run, c, batch, 3 if quick else 40)
     guarded(run, "conversions", stream_convert, run, c, batch, 200 if quick else 20000)
